@@ -122,6 +122,21 @@ pub struct Trace {
     pub finalize_entered: bool,
     pub finalized: bool,
     pub xml_out: Option<String>,
+    /// handle onto the device, to observe injected faults
+    pub probe: Option<MemDev>,
+    /// a call returned success although an injected device fault fired during it
+    pub swallowed: Option<String>,
+}
+impl Trace {
+    fn after_ok(&mut self, name: &str) {
+        if self.swallowed.is_none() {
+            if let Some(p) = &self.probe {
+                if p.fault_fired() {
+                    self.swallowed = Some(name.to_string());
+                }
+            }
+        }
+    }
 }
 
 fn rep_props_visual(r: &RepSpec) -> VisualReferenceImageProperties {
@@ -133,7 +148,10 @@ macro_rules! call {
         $tr.current = $name.to_string();
         $tr.calls += 1;
         match $e {
-            Ok(v) => v,
+            Ok(v) => {
+                $tr.after_ok($name);
+                v
+            }
             Err(e) => {
                 $tr.error = Some(($name.to_string(), e.to_string()));
                 return;
@@ -290,6 +308,9 @@ pub fn exec_cloud<T: std::io::Read + std::io::Write + std::io::Seek>(w: &mut E57
             tr.error = Some((format!("add_point#{i}"), e.to_string()));
             return;
         }
+        if tr.probe.is_some() {
+            tr.after_ok("add_point");
+        }
     }
     if c.finalize {
         call!(tr, "pointcloud.finalize", pw.finalize());
@@ -300,6 +321,7 @@ pub fn exec_cloud<T: std::io::Read + std::io::Write + std::io::Seek>(w: &mut E57
 /// would.  The writer is dropped before returning.
 pub fn exec(p: &Program, dev: MemDev, tr: &mut Trace) {
     let marker = dev.handle();
+    tr.probe = Some(dev.handle());
     let mut w = call!(tr, "E57Writer::new", E57Writer::new(dev, &p.guid));
     for op in &p.ops {
         match op {
@@ -349,6 +371,7 @@ pub fn exec(p: &Program, dev: MemDev, tr: &mut Trace) {
                 tr.error = Some(("finalize_customized_xml".into(), e.to_string()));
                 return;
             }
+            tr.after_ok("finalize_customized_xml");
             tr.finalized = true;
         }
         End::Drop => {}
